@@ -140,6 +140,17 @@ theorem getObj_classAttr_ext {h0 h : Heap} (wf0 : WF h0) (e : Ext h0 h) {cd : Cl
   | imm i => rfl
   | ref c => simp only [getObj]; exact e.get (classAttr_valid wf0 ok k c hv)
 
+theorem freshCopyOf_norefs' {h0 h : Heap} (wf0 : WF h0) (e : Ext h0 h) {cd : ClassDesc} (ok : ClassOK h0 cd)
+    (k : String) (dflt : Kind) : ∀ k' c, (k', Val.ref c) ∉ (freshCopyOf h (classAttr h0 cd k) dflt).slots := by
+  intro k' c hm
+  unfold freshCopyOf at hm
+  have : getObj h (classAttr h0 cd k) = getObj h0 (classAttr h0 cd k) := by
+    rw [← getObj_classAttr_ext wf0 e ok, classAttr_ext wf0 e ok]
+  rw [this] at hm
+  cases ho : getObj h0 (classAttr h0 cd k) with
+  | none => simp [ho] at hm
+  | some o => simp only [ho] at hm; exact ok.leaf k o ho k' c hm
+
 theorem freshCopyOf_norefs {h0 h : Heap} (wf0 : WF h0) (e : Ext h0 h) {cd : ClassDesc} (ok : ClassOK h0 cd)
     (k : String) (dflt : Kind) : ∀ k' c, (k', Val.ref c) ∉ (freshCopyOf h (classAttr h cd k) dflt).slots := by
   intro k' c hm
@@ -320,7 +331,8 @@ theorem stageInterface_ok (names : List String) (n : Nat) : StageOK fix b h0 cd 
     · simp at h2
       rcases h2 with ⟨_, rfl⟩ | ⟨_, rfl⟩ <;> exact Or.inl (NewV.imm _ _ _)
 
-theorem stageModel_ok : StageOK fix b h0 cd h (stageModel fix cd h) := by
+theorem stageModel_ok : StageOK fix b h0 cd h
+    (stageModel fix cd (classAttr h0 cd "ENDOGENOUS") (classAttr h0 cd "CHECK") h) := by
   unfold stageModel
   by_cases hc : cd.base = .container
   · simp only [hc, if_true]
@@ -333,8 +345,8 @@ theorem stageModel_ok : StageOK fix b h0 cd h (stageModel fix cd h) := by
         intro e he k c hm
         simp at he
         rcases he with rfl | rfl
-        · exact absurd hm (freshCopyOf_norefs wf0 e0 ok _ _ k c)
-        · exact absurd hm (freshCopyOf_norefs wf0 e0 ok _ _ k c)
+        · exact absurd hm (freshCopyOf_norefs' wf0 e0 ok _ _ k c)
+        · exact absurd hm (freshCopyOf_norefs' wf0 e0 ok _ _ k c)
       · intro k v hm
         simp only [List.mem_append] at hm
         rcases hm with h2 | h2
@@ -351,8 +363,8 @@ theorem stageModel_ok : StageOK fix b h0 cd h (stageModel fix cd h) := by
       rcases List.mem_append.mp hm with h2 | h2
       · simp at h2
         rcases h2 with ⟨rfl, rfl⟩ | ⟨rfl, rfl⟩
-        · exact Or.inr ⟨by simpa using hf, hc, Or.inl ⟨rfl, classAttr_ext wf0 e0 ok _⟩⟩
-        · exact Or.inr ⟨by simpa using hf, hc, Or.inr ⟨rfl, classAttr_ext wf0 e0 ok _⟩⟩
+        · exact Or.inr ⟨by simpa using hf, hc, Or.inl ⟨rfl, rfl⟩⟩
+        · exact Or.inr ⟨by simpa using hf, hc, Or.inr ⟨rfl, rfl⟩⟩
       · by_cases hm' : cd.base = .model
         · simp [hm'] at h2; rcases h2 with ⟨_, rfl⟩; exact Or.inl (NewV.imm _ _ _)
         · simp [hm'] at h2
@@ -399,7 +411,9 @@ theorem construct_ok {b : Nat} {h0 h : Heap} {cd : ClassDesc} (wf0 : WF h0) (e0 
   have S4 := thread_ok S3
     (stageInterface_ok wf0 (e0.trans S3.ext) ok S3.blk (by omega) (modelNames h cd) (spanLen h span))
   have l4 := S4.ext.len
-  have S5 := thread_ok S4 (stageModel_ok wf0 (e0.trans S4.ext) ok S4.blk (by omega))
+  have S5 := thread_ok S4 (by
+    have := stageModel_ok (fix := fix) wf0 (e0.trans S4.ext) ok S4.blk (by omega)
+    rwa [← classAttr_ext wf0 e0 ok, ← classAttr_ext wf0 e0 ok] at this)
   have l5 := S5.ext.len
   exact thread_ok S5 (stageTracer_ok wf0 (e0.trans S5.ext) ok S5.blk (by omega) (spanLen h span))
 
